@@ -164,7 +164,7 @@ func sameSeq(a, b []string) bool { return strings.Join(a, "\n") == strings.Join(
 
 func twinWeights() map[string]int {
 	return map[string]int{"scan": 12, "targetUtil": 10, "advance": 7, "addPods": 2, "clearNode": 2, "launch": 2, "cordon": 3, "taintExt": 4,
-		"removeTaint": 1, "annotate": 2, "schedule": 1, "finishPods": 1, "asgEdit": 2}
+		"removeTaint": 1, "annotate": 2, "schedule": 1, "finishPods": 1, "asgEdit": 4}
 }
 
 // ---------------------------------------------------------------- C12 / C11: another group changes
@@ -204,12 +204,15 @@ func otherGroupCompare(prop, sigPrefix string, changed int) func(i int, sp scanP
 }
 
 func TestC12Twin(t *testing.T) {
-	p := &world.Profile{Name: "isolation-twin", OwnNodesOnly: true, MinGroups: 2, MaxGroups: 3, Dry: 1, Auto: 1, Default: 1, MaxInit: 6, SmallGraces: true, Steps: 30, Weights: twinWeights()}
+	p := &world.Profile{Name: "isolation-twin", OwnNodesOnly: true, MinGroups: 2, MaxGroups: 3, Dry: 1, Auto: 2, Default: 1, MaxInit: 6, SmallGraces: true, Steps: 30, Weights: twinWeights()}
 	col := newCollector(t, "C12", "metamorphic twin: the recorded history is replayed on a world that differs only inside one group (its pods multiplied, its thresholds/rates changed, its nodes pre-tainted); every other group's writes must be identical scan by scan; non-trivial = a scan in which an unchanged group acts while the changed group's own actions differ between the runs")
 	rapid.Check(t, func(rt *rapid.T) {
 		runTwin(rt, &twinOpts{prop: "C12", profile: p, choose: func(rt *rapid.T, pw *world.World, scans []*world.ScanRecord) *perturbation {
 			changed := rapid.IntRange(0, len(pw.Cfg.Groups)-1).Draw(rt, "changedGroup")
-			kind := rapid.SampledFrom([]string{"pods", "thresholds", "rates", "pretaint", "graces", "faults", "outOfBounds"}).Draw(rt, "perturbation")
+			kind := rapid.SampledFrom([]string{"pods", "thresholds", "rates", "pretaint", "graces", "faults", "outOfBounds", "outOfBounds"}).Draw(rt, "perturbation")
+			if kind == "outOfBounds" && rapid.Bool().Draw(rt, "first") {
+				changed = 0 // every other group is processed after the failing one
+			}
 			pt := &perturbation{label: fmt.Sprintf("group %d: %s", changed, kind), compare: otherGroupCompare("C12", "other-group-change", changed)}
 			switch kind {
 			case "pods": // a large extra pod for the changed group right after start-up
